@@ -80,6 +80,8 @@ def case_imag(ctx):
         if sc.family == "ps" and list(full.bond_dims) != [int(c) for c in states.exact_bond_caps(em.gm.dims)]:
             order = 2
         x = (0.3 if order is None else {1: 0.1, 2: 0.2, 3: 0.3}.get(order, 0.4)) * float(rng.uniform(0.6, 1.0))
+        if sc.family == "cmf" and order == 2:
+            x *= 2.0      # the inner site solves of CMF use solve_ivp's default rtol 1e-3: an error floor of ~1e-5
         tau = x / em.hnorm
 
         def ref(t):
@@ -99,7 +101,7 @@ def case_imag(ctx):
             ctx.check(e1 <= 10 * x ** (order + 1) * scale + 1e-9, f"I|{sc.name}|error-above-order-bound", e=e1, x=x, p=order)
             o2 = evolve.run_step(ctx, sc, full, em.mpo, -1j * tau / 2, cfg=imag_cfg(sc), what=f"evolve|{sc.name}|imag")
             e2 = err(o2, ref(tau / 2))
-            if e2 > (1e-6 if sc.family == "ps" else 1e-8) * scale:
+            if e2 > {"ps": 1e-6, "cmf": 5e-5}.get(sc.family, 1e-8) * scale:
                 ctx.count("ratios_measured")
                 ratio = e1 / e2
                 ctx.metric_max(f"imag_min_ratio_deficit:{sc.family}", 2 ** (order + 1) / ratio)
@@ -277,12 +279,9 @@ def case_thermal(ctx):
     e_ref, eocc_ref, pocc_ref, hn = gibbs_refs(model, nexc, beta)
     ctx.describe({"kind": "thermal", "model": desc, "nexciton": nexc, "beta": beta, "beta*||H||": beta * hn})
     errs = {}
-    for N in (4, 8):
+    n1 = max(4, int(np.ceil(beta / 2 * hn / 0.5)))       # per-step tau*||H|| <= 0.5
+    for N in (n1, 2 * n1):
         tau = beta / 2 / N
-        if tau * hn > 0.5:
-            N2 = int(np.ceil(beta / 2 * hn / 0.5))
-            N = max(N, N2) if N == 4 else max(2 * N2, N)
-            tau = beta / 2 / N
         init = ctx.lib(MpDm.max_entangled_ex if nexc else MpDm.max_entangled_gs, model, what="MpDm.max_entangled")
         init.compress_config = CompressConfig(CompressCriteria.fixed, max_bonddim=10 ** 6)
         cfg = EvolveConfig(EvolveMethod.prop_and_compress)
